@@ -47,7 +47,7 @@ fn merkle_check(steps: &[Step]) -> Option<String> {
                 Step::Append(sizes) => { let bs: Vec<Vec<u8>> = sizes.iter().enumerate().map(|(k, s)| block_bytes(blocks.len() + k, *s)).collect();
                     let refs: Vec<&[u8]> = bs.iter().map(|b| b.as_slice()).collect(); if let Err(e) = block_on(core.append_batch(&refs)) { return Some(format!("append: {e}")); } blocks.extend(bs); }
                 Step::Reopen => { drop(core); core = match open_core(&disk) { Ok(c) => c, Err(e) => return Some(format!("reopen: {e}")) }; }
-                Step::Clear(..) => {}
+                Step::Clear(..) | Step::ReadOnly => {}
             }
             if blocks.is_empty() { continue; }
             let n = blocks.len() as u64;
